@@ -76,6 +76,7 @@ type c28Out struct {
 	status         int
 	panicked       string
 	errText        string
+	skip           bool // the run did not take place or ran out of time (machine load): no verdict
 }
 
 type limitedBuf struct {
@@ -109,12 +110,16 @@ func c28RunIn(dir string, script string, params []string) c28Out {
 		)
 		if err != nil {
 			res.errText = "new: " + err.Error()
+			res.skip = true
 			return
 		}
-		ctx, cancel := context.WithTimeout(context.Background(), 5*time.Second)
+		ctx, cancel := context.WithTimeout(context.Background(), 60*time.Second)
 		defer cancel()
 		err = r.Run(ctx, f)
 		res.stdout, res.stderr = out.String(), errb.String()
+		if ctx.Err() != nil {
+			res.skip = true
+		}
 		if err != nil {
 			var es interp.ExitStatus
 			if asExit(err, &es) {
@@ -176,6 +181,10 @@ func c28TieShift(c *Ctx, dir string, nparams int, args []string) {
 		qa = append(qa, sq(a))
 	}
 	res := c28RunIn(dir, "shift "+strings.Join(qa, " ")+"; echo $?:$#", params)
+	if res.skip {
+		c.Hist["tie-skipped"]++
+		return
+	}
 	got := ""
 	switch {
 	case res.panicked != "":
@@ -202,6 +211,10 @@ func c28TieLoop(c *Ctx, dir string, isBreak bool, args []string) {
 	script := "for i in 1 2; do for j in 1 2; do echo $i$j; " + cmd + " " + strings.Join(qa, " ") +
 		"; echo 100; done; echo 200; done; echo 300"
 	res := c28RunIn(dir, script, nil)
+	if res.skip {
+		c.Hist["tie-skipped"]++
+		return
+	}
 	got := strings.Join(strings.Fields(res.stdout), ",")
 	if res.panicked != "" {
 		got = "panic"
@@ -219,6 +232,10 @@ func c28TieExit(c *Ctx, dir string, useReturn bool, args []string) {
 		script = "f() { return " + strings.Join(qa, " ") + "; echo no; }; f; exit $?"
 	}
 	res := c28RunIn(dir, "(exit 77); "+script, nil)
+	if res.skip {
+		c.Hist["tie-skipped"]++
+		return
+	}
 	got := ""
 	switch {
 	case res.panicked != "":
@@ -366,6 +383,10 @@ func c28TieWait(c *Ctx, dir string, nprocs int, args []string) {
 	}
 	script := strings.Repeat("true & ", nprocs) + "wait " + strings.Join(qa, " ")
 	res := c28RunIn(dir, script, nil)
+	if res.skip {
+		c.Hist["tie-skipped"]++
+		return
+	}
 	got := ""
 	switch {
 	case res.panicked != "":
@@ -434,6 +455,10 @@ func c28TieGseq(c *Ctx, dir string, calls []c28GCall) (panicked bool) {
 		}
 	}
 	res := c28RunIn(dir, sb.String(), nil)
+	if res.skip {
+		c.Hist["tie-skipped"]++
+		return false
+	}
 	var recs []string
 	for _, l := range strings.Split(strings.TrimSuffix(res.stdout, "\n"), "\n") {
 		if l == "" {
@@ -505,6 +530,10 @@ func c28TieDirs(c *Ctx, root string, ops []c28DOp) {
 		sb.WriteString("; echo \"\x1e$?\"\n")
 	}
 	res := c28RunIn(root, sb.String(), nil)
+	if res.skip {
+		c.Hist["tie-skipped"]++
+		return
+	}
 	// records: output up to the \x1e marker, then the status line
 	var recs []string
 	rest := strings.ReplaceAll(res.stdout, root, "/R")
@@ -725,6 +754,10 @@ func c28TieLvalue(c *Ctx, dir string, lhs string) {
 		expand.Arithm(cfg, f.Stmts[0].Cmd.(*syntax.ArithmCmd).X)
 	})
 	res := c28RunIn(dir, src, nil)
+	if res.skip {
+		c.Hist["tie-skipped"]++
+		return
+	}
 	switch {
 	case res.panicked != "" && len(names) > 0 && names[0] == "":
 		got += "panic"
@@ -766,6 +799,10 @@ func c28TieAssoc(c *Ctx, dir string, idxSrc string) {
 		return
 	}
 	res := c28RunIn(dir, src, nil)
+	if res.skip {
+		c.Hist["tie-skipped"]++
+		return
+	}
 	got := "ok"
 	if res.panicked != "" {
 		got = "panic"
